@@ -178,13 +178,15 @@ def passGet (chunkSize : Nat) (chunks : List (List Int)) (tac : Bool) (idx : Nat
       (chunks[j / chunkSize + 1]?).bind (·[j % chunkSize]?)
     else (chunks[i / chunkSize]?).bind (·[i % chunkSize]?)
 
+/-- `partitions` consecutive slices of `perSlice` chunks each; the last one takes the rest. -/
+def sliceGo (perSlice : Nat) : Nat → List α → List (List α)
+  | 0, _ => []
+  | 1, l => [l]
+  | k + 2, l => l.take perSlice :: sliceGo perSlice (k + 1) (l.drop perSlice)
+
 /-- `Matcher.sliceChunks`. -/
 def sliceChunks (partitions : Nat) (chunks : List α) : List (List α) :=
   let perSlice0 := chunks.length / partitions
-  let (partitions, perSlice) := if perSlice0 = 0 then (chunks.length, 1) else (partitions, perSlice0)
-  (List.range partitions).map fun i =>
-    let start := i * perSlice
-    let stop := if i = partitions - 1 then chunks.length else start + perSlice
-    (chunks.drop start).take (stop - start)
+  if perSlice0 = 0 then sliceGo 1 chunks.length chunks else sliceGo perSlice0 partitions chunks
 
 end Fzf.Rank
